@@ -142,6 +142,11 @@ def plan_c03(tier, seed):
     cfixed = [k for k in COLL_KINDS if k.endswith(("fixed", "static", "virtual"))]
     jobs += pool_jobs(cfgs, ["walk", "phased"], n, 300, ck, kinds=fixed) + coll_jobs(cfgs, ["corner", "phased"], n // 2, 300, ck, kinds=cfixed) \
         + stack_jobs(cfgs, ["walk"], n, 300, ck, kinds=["stack/fixed", "stack/static", "stack/virtual", "static_allocator"] + ITER_KINDS)
+    # compositions: leaves below a fallback_allocator's Default position may only be reached through try_ members, which return
+    # null when the leaf is full (a throw inside them terminates the process)
+    for cfg in cfgs[:2] if q else cfgs:
+        for k in ROUTING_KINDS:
+            jobs += [Job("h_compose", cfg, "asan", "routing", k, c, ops=_scale(tier, 200, 400), cpu=_scale(tier, 40, 120)) for c in chunks(_scale(tier, 20, 400), 20 if q else 100)]
     return dict(jobs=jobs, level="fault_enumeration",
                 rule="(faults) a seeded history per kind (three pools, four collections, two stacks over probe upstreams) is run once to count its "
                      "upstream calls K, then once more for each k < K (quick: k <= 12 plus six seeded k above) with the upstream throwing at call k "
@@ -149,7 +154,10 @@ def plan_c03(tier, seed):
                      "re-issued and the history continues under the shadow-heap and upstream-balance oracles. (maxima) 24 requests per case with "
                      "size / count / alignment drawn from {max-1, max, max+1, 2*max+1, SIZE_MAX/2, SIZE_MAX, max+1..64} relative to the reported "
                      "maxima, throwing and try_ interface: outcome classified by exception type, handler counters compared. (exhaustion) histories on "
-                     "fixed, static and virtual block sources, iteration regions and static_allocator until out_of_fixed_memory. non-trivial = a "
+                     "fixed, static and virtual block sources, iteration regions and static_allocator until out_of_fixed_memory. (routing) fallback_allocator / "
+                     "segregator / tracked / aligned / reference compositions over budgeted composable leaves are filled until they spill: a leaf "
+                     "below a Default position may only be reached through try_ members (its throwing members report), and a throw inside a "
+                     "try_ member terminates the process. non-trivial = a "
                      "faults case, a maxima case with at least one refused request, or a history that exhausted its source or grew; distinct = "
                      "FNV-1a of kind, configuration and operation sequence",
                 assumptions=ASSUME_COMMON + ["the byte size count*size of a request is representable in size_t (the interface multiplies the two)"],
@@ -323,6 +331,8 @@ def plan_c13(tier, seed):
         for k in STATELESS_KINDS:
             jobs += [Job("h_thread", cfg, "tsan", "stateless", k, c, ops=ops // 2, cpu=900) for c in chunks(n, 3 if q else 6)]
             jobs += [Job("h_thread", cfg, "plain", "statelessexit", "stateless-exit/" + k, c, cpu=900) for c in chunks(_scale(tier, 4, 40), 4)]
+        for k in ("new-handler/new_allocator", "new-handler/thread_safe<new_allocator>"):
+            jobs += [Job("h_thread", cfg, "plain", "newhandler", k, c, ops=_scale(tier, 2000, 5000), cpu=900) for c in chunks(_scale(tier, 6, 60), 3 if q else 6)]
     return dict(jobs=jobs, level="exploration",
                 rule="case = (configuration, storage policy x mutex type | real allocator | stateless allocator, sanitizer, index): 2..8 (thorough 16) "
                      "threads issue a seeded mix of every forwarding member of allocator_storage (throwing, composable, max_* queries) and the lock() "
@@ -330,12 +340,17 @@ def plan_c13(tier, seed):
                      "that no other thread is inside, then yields / sleeps / spins inside the call; an unsynchronised counter in the allocator gives "
                      "ThreadSanitizer something to see. (real) memory_pool / small pool / collection / stack behind std::mutex with per-thread "
                      "byte patterns under ThreadSanitizer. (stateless) heap / malloc / new / virtual memory allocators bare and wrapped: no lock may "
-                     "be taken. non-trivial = every completed multi-threaded case; distinct = FNV-1a of kind, configuration and thread/operation "
+                     "be taken. (statelessexit) child processes whose threads use a stateless allocator concurrently and exit with a known "
+                     "number of live blocks: the exit-time leak report must give exactly that figure. (newhandler) 2..8 threads issue requests "
+                     "::operator new cannot serve next to ordinary ones on new_allocator, bare and wrapped, while a monitor thread polls "
+                     "std::get_new_handler(): every failed request consulted the program's handler on its own thread and ended in out_of_memory, "
+                     "and the program's handler is installed at every observation and at the end. non-trivial = every completed multi-threaded case; distinct = FNV-1a of kind, configuration and thread/operation "
                      "counts. Evidence lists entries per member and contended acquisitions.",
                 assumptions=ASSUME_COMMON + ["schedules are those the OS produced plus the delays injected inside the wrapped allocator; mutex types: "
                                              "std::mutex and the instrumented one"],
                 minima={"cases": 40, "distinct_nontrivial": 20, "monitored_entries": 200000, "contended_acquisitions": 2000,
-                        "entries_max_node_size": 5000, "entries_try_deallocate_array": 2000, "real_allocator_ops": 50000, "stateless_ops": 50000})
+                        "entries_max_node_size": 5000, "entries_try_deallocate_array": 2000, "real_allocator_ops": 50000, "stateless_ops": 50000,
+                        "failed_requests": 5000, "handler_observations": 100000, "exit_children": 8})
 
 
 def plan_c14(tier, seed):
@@ -376,7 +391,8 @@ def plan_c14(tier, seed):
 
 STL_CONTAINERS = ["list", "forward_list", "set", "multiset", "map", "multimap", "unordered_set", "unordered_map", "vector", "deque", "basic_string"]
 STL_PROGRAM_KINDS = ["%s/%s" % (c, a) for a in ("std_allocator", "any_std_allocator") for c in STL_CONTAINERS] + ["smart-pointers"] \
-    + ["%s/any_std_allocator-stateless" % c for c in ("list", "set", "vector", "unordered_map")]
+    + ["%s/any_std_allocator-stateless" % c for c in ("list", "set", "vector", "unordered_map")] \
+    + ["%s/std_allocator-composed" % c for c in ("list", "vector", "deque", "basic_string", "unordered_map")]
 NODESIZE_KINDS = ["forward_list", "list", "set", "multiset", "unordered_set", "unordered_multiset", "map", "multimap", "unordered_map",
                   "unordered_multimap", "shared_ptr"]
 
@@ -396,7 +412,8 @@ def plan_c10(tier, seed):
         for k in NODESIZE_KINDS:
             jobs += [Job("h_stl", "rwd", "asan", "nodesize", k, c, defines=("VERIF_FULL_GRID",), cpu=900) for c in chunks(248, 62)]
     return dict(jobs=jobs, level="exploration",
-                rule="(programs) case = (configuration, container kind x {std_allocator, any_std_allocator}, index): two containers bound to the same or "
+                rule="(programs) case = (configuration, container kind x {std_allocator, any_std_allocator, any_std_allocator over stateless allocators, "
+                     "std_allocator over fallback_allocator<reference<leaf>,reference<leaf>> with a small first leaf}, index): two containers bound to the same or "
                      "to different instrumented allocator objects run a seeded program of insert / erase / clear / copy and move assignment / swap / "
                      "copy construction (plain and with allocator) / move construction with allocator / splice (only issued when get_allocator() == "
                      "says equal); every release reaching a leaf that did not hand the memory out, a shape mismatch, unbalanced leaves at the end, "
